@@ -361,10 +361,10 @@ func (p *Path) selectStmt(fr *frame, in *ssa.Select) Value {
 			continue
 		}
 		if st.Dir == types.SendOnly {
-			if len(ch.Buf) < ch.Cap {
+			if len(ch.Buf) < ch.Cap || ch.Closed {
 				ready = append(ready, i)
 			}
-		} else if len(ch.Buf) > 0 {
+		} else if len(ch.Buf) > 0 || ch.Closed { // a closed channel is always ready to receive
 			ready = append(ready, i)
 		}
 	}
@@ -385,7 +385,13 @@ func (p *Path) selectStmt(fr *frame, in *ssa.Select) Value {
 	st := in.States[pick]
 	ch := chans[pick]
 	if st.Dir == types.SendOnly {
+		if ch.Closed {
+			panic(&goPanic{msg: "send on closed channel", stack: p.where()})
+		}
 		ch.Buf = append(ch.Buf, p.get(fr, st.Send))
+		return res
+	}
+	if len(ch.Buf) == 0 { // closed and drained: zero value, recvOk = false
 		return res
 	}
 	v := ch.Buf[0]
